@@ -30,6 +30,7 @@ fn cfg_for(role: Role, script: Vec<SenderKind>, enumerate: bool) -> WalkCfg {
         allow_local_failures: false,
         manual_release: true,
         allow_not_ready: false,
+        q2_explicit_ids: false,
         partial_progress_pct: 0,
         enumerate,
         script,
@@ -149,6 +150,7 @@ pub fn run(opts: &Opts) -> i32 {
         cfg.steps = 40;
         cfg.partial_progress_pct = *rng.pick(&[0, 30]);
         cfg.allow_cancel = rng.chance(1, 3);
+        cfg.q2_explicit_ids = rng.chance(1, 3);
         let mut ch = RandomChoice::new(rng);
         let cfg2 = cfg.clone();
         let r = exec(async move { sinkwalk::walk(&cfg2, &mut ch).await });
